@@ -8,6 +8,11 @@ HOOK_COMMITS = ["204cfe3", "2edc694", "e1d8638"]
 
 # id -> (category, technique, level text, level note, design ref)
 CHECKS = {
+ "C06": ("exploration",
+         "scripted-gate runtime monitoring: the merger or persister of a real writer is held at each phase boundary of file merges, in-memory merges and persist swaps (directory, plug-in and event seams) while conflicting batches land; reader-vs-abstract-index oracle while held, after release, after a further batch and after reopen",
+         "For every (merge kind, phase, delete pattern) placement the background goroutine is blocked at the phase point, batches delete/update documents of exactly the segments under merge (from the Merge call's inputs), and the content must equal the abstract index at every stage; placements whose gate was not reached are counted as not realised. Skipped-merge introductions and merge introductions are read from the writer's statistics to show the paths were taken. Enumerated over the placement grid; other interleavings sampled by repetition.",
+         "Trusts: role detection from goroutine stacks; gate watchdog 8 s (placement then inconclusive).",
+         "DESIGN.md §2.5, §4 C06"),
  "C01": ("exploration",
          "reference-model monitor: after every Batch call of generated histories a fresh Reader of the real writer is compared (Count, match-all with stored fields, lookup of every id) with the abstract index, over a configuration matrix, with merges/persists/segment drops provoked and seeded jitter at every directory, plug-in and event seam",
          "Histories of 24..50 calls over 7 ids (updates, inserts of existing ids, updates carrying another id, deletes, empty and delete-only batches, documents of all field kinds) run on {file system, memory} x {ice v1, v2} x {safe, unsafe} with merge-happy options; the reader taken after each call and after background work settled must equal the abstract index exactly. Layouts and merges actually seen are measured through the hooks. Held on the histories and schedules observed.",
